@@ -9,6 +9,9 @@ import (
 	"bytes"
 	"encoding/binary"
 	"fmt"
+	"github.com/refraction-networking/uquic/internal/utils"
+	"io"
+	"log"
 	"sort"
 	"strings"
 	"testing"
@@ -36,10 +39,13 @@ type Case struct {
 	PreIDs int `json:"pre_ids,omitempty"`
 	// Reuse: both dials use the same QUICSpec value (one spec value may serve many connections) instead of a fresh one
 	Reuse bool `json:"reuse,omitempty"`
+	// DebugLog: the process runs with QUIC_GO_LOG_LEVEL=debug (log output discarded)
+	DebugLog bool `json:"debug_log,omitempty"`
 }
 
 func genCase(t *rapid.T) Case {
-	c := Case{Dials: 2, PreIDs: rapid.SampledFrom([]int{0, 0, 1, 2}).Draw(t, "pre-ids"), Reuse: rapid.IntRange(0, 2).Draw(t, "reuse") == 0}
+	c := Case{Dials: 2, PreIDs: rapid.SampledFrom([]int{0, 0, 1, 2}).Draw(t, "pre-ids"), Reuse: rapid.IntRange(0, 2).Draw(t, "reuse") == 0,
+		DebugLog: rapid.IntRange(0, 3).Draw(t, "debuglog") == 0}
 	c.Spec = specgen.Desc{Base: rapid.SampledFrom(specgen.BaseNames()).Draw(t, "base")}
 	if rapid.IntRange(0, 3).Draw(t, "own-tps") != 0 {
 		c.Spec.TPs = specgen.GenTPs(t, 2, 10)
@@ -138,6 +144,13 @@ func extID(e tls.TLSExtension) (id int, known bool) {
 
 func checkCase(c Case, u *vf.Unit) *vf.Verdict {
 	u.Journal(c)
+	if c.DebugLog {
+		// what the wire carries must not depend on whether anybody is listening to the logger
+		log.SetOutput(io.Discard)
+		utils.DefaultLogger.SetLogLevel(utils.LogLevelDebug)
+		defer utils.DefaultLogger.SetLogLevel(utils.LogLevelNothing)
+		u.Class("debug-logging-on")
+	}
 	var perms []string
 	var spec *quic.QUICSpec
 	var pristine []idval
